@@ -836,6 +836,81 @@ Lemma L_bind_calls_are_spec : forall nf na regs,
   bind_calls (new_router nf na) regs = spec_calls [] regs.
 Proof. intros. apply (bind_calls_spec nf na regs []). Qed.
 
+(* [spec_calls]: a prefix of the list; all of it, all accepted, when nothing is to be rejected; ending with a rejected
+   call otherwise *)
+Lemma spec_calls_incl : forall regs T x, In x (spec_calls T regs) -> In (fst x) regs.
+Proof.
+  induction regs as [|g regs IH]; intros T x I; [contradiction|]. cbn [spec_calls] in I.
+  destruct (reg_spec T (rmethod g) (rpath g));
+    try (destruct I as [I|[]]; subst x; left; reflexivity).
+  destruct I as [I|I]; [subst x; left; reflexivity | right; exact (IH _ _ I)].
+Qed.
+
+Lemma spec_calls_none : forall regs T, first_error (reg_results T regs) = None ->
+  spec_calls T regs = map (fun g => (g, RegOk)) regs.
+Proof.
+  induction regs as [|g regs IH]; intros T F; [reflexivity|]. cbn [spec_calls reg_results map] in *.
+  unfold first_error in F. cbn [find] in F.
+  destruct (reg_spec T (rmethod g) (rpath g)) eqn:E; cbn in F; try discriminate.
+  f_equal. apply IH. exact F.
+Qed.
+
+Lemma spec_calls_some : forall regs T e, first_error (reg_results T regs) = Some e ->
+  exists x, In x (spec_calls T regs) /\ accepted (snd x) = false.
+Proof.
+  induction regs as [|g regs IH]; intros T e F; [discriminate|]. cbn [spec_calls reg_results] in *.
+  unfold first_error in F. cbn [find] in F.
+  destruct (reg_spec T (rmethod g) (rpath g)) eqn:E; cbn in F;
+    try (eexists; split; [left; reflexivity | reflexivity]).
+  destruct (IH _ _ F) as [x [I A]]. exists x. split; [right; exact I | exact A].
+Qed.
+
+Lemma forallb2_right : forall A B (f : A -> B -> bool) a b, forallb2 f a b = true ->
+  forall y, In y b -> exists x, In x a /\ f x y = true.
+Proof.
+  intros A B f. induction a as [|x a IH]; destruct b as [|y b]; cbn; intros F z I; try contradiction; try discriminate.
+  apply andb_true_iff in F. destruct F as [F1 F2]. destruct I as [I|I].
+  - subst z. exists x. split; [left; reflexivity | exact F1].
+  - destruct (IH _ F2 _ I) as [x' [I' H]]. exists x'. split; [right; exact I' | exact H].
+Qed.
+
+Lemma forallb2_left : forall A B (f : A -> B -> bool) a b, forallb2 f a b = true ->
+  forall x, In x a -> exists y, In y b /\ f x y = true.
+Proof.
+  intros A B f. induction a as [|x a IH]; destruct b as [|y b]; cbn; intros F z I; try contradiction; try discriminate.
+  apply andb_true_iff in F. destruct F as [F1 F2]. destruct I as [I|I].
+  - subst z. exists y. split; [left; reflexivity | exact F1].
+  - destruct (IH _ F2 _ I) as [y' [I' H]]. exists y'. split; [right; exact I' | exact H].
+Qed.
+
+Lemma accepted_eqb : forall a b, reg_result_eqb a b = true -> accepted a = accepted b.
+Proof. intros a b H. destruct a, b; cbn in H; try discriminate; reflexivity. Qed.
+
+(* the order-insensitive judgement follows from the call-by-call comparison with the model *)
+Lemma calls_ok_from_pointwise : forall regs calls,
+  forallb2 call_agrees (spec_calls [] regs) calls = true -> calls_ok regs calls = true.
+Proof.
+  intros regs calls F. unfold calls_ok. apply andb_true_iff. split.
+  - apply forallb_forall. intros o I. destruct (forallb2_right _ _ _ _ _ F o I) as [x [IX C]].
+    unfold call_agrees in C. apply andb_true_iff in C. destruct C as [C _].
+    unfold regs_have. apply existsb_exists. exists (fst x). split; [exact (spec_calls_incl _ _ _ IX) | exact C].
+  - destruct (first_error (reg_results [] regs)) as [e|] eqn:FE.
+    + destruct (spec_calls_some _ _ _ FE) as [x [IX A]].
+      destruct (forallb2_left _ _ _ _ _ F x IX) as [o [IO C]].
+      apply existsb_exists. exists o. split; [exact IO|].
+      unfold call_agrees in C. apply andb_true_iff in C. destruct C as [_ C].
+      rewrite <- (accepted_eqb _ _ C), A. reflexivity.
+    + rewrite (spec_calls_none _ _ FE) in F. apply andb_true_iff. split.
+      * apply forallb_forall. intros o I. destruct (forallb2_right _ _ _ _ _ F o I) as [x [IX C]].
+        apply in_map_iff in IX. destruct IX as [g [EG _]]. subst x.
+        unfold call_agrees in C. apply andb_true_iff in C. destruct C as [_ C]. cbn [snd] in C.
+        rewrite <- (accepted_eqb _ _ C). reflexivity.
+      * apply forallb_forall. intros g I.
+        destruct (forallb2_left _ _ _ _ _ F (g, RegOk)) as [o [IO C]]; [apply in_map_iff; exists g; auto|].
+        unfold call_agrees in C. apply andb_true_iff in C. destruct C as [C _].
+        unfold calls_have. apply existsb_exists. exists o. split; [exact IO | exact C].
+Qed.
+
 Lemma L_agrees_implies_prop_ok_server : forall s, s_agrees s = true -> s_prop_ok s = true.
 Proof.
   intros s A. unfold s_agrees in A. rewrite !andb_true_iff in A. destruct A as [[[[[ST _] _] _] REQ] BND].
@@ -846,9 +921,7 @@ Proof.
     destruct (negb (server_in_scope s i)); [reflexivity|].
     destruct (has_start i (sevents s)); [|exact BA].
     unfold bound_regs in BA. rewrite L_routes_are_spec in BA. fold (user_regs s i) in BA.
-    rewrite L_bind_calls_are_spec in BA. revert BA. apply forallb2_impl.
-    intros x y C. unfold call_agrees, call_ok in *. apply andb_true_iff in C. destruct C as [C1 C2].
-    rewrite C1. cbn. unfold same_verdict. destruct (snd x), (snd y); cbn in C2; try discriminate; reflexivity. }
+    rewrite L_bind_calls_are_spec in BA. apply calls_ok_from_pointwise. exact BA. }
   - (* how every Start ended *)
     revert ST. apply forallb2_impl. intros i o SA. unfold start_ok.
     destruct (negb (server_in_scope s i)); [reflexivity|].
